@@ -11,7 +11,8 @@ for d in seeded/*/; do
     mkdir -p "/var/tmp/rb-$id"; cp "$src/patch.rebased.diff" "/var/tmp/rb-$id/patch.diff"; src="/var/tmp/rb-$id"
   fi
   out=$(timeout 1800 selftest/try_seeded.sh "$p" "$src" 2>&1)
-  if echo "$out" | grep -q "patch does not apply"; then echo "$id DOES-NOT-APPLY"; miss=1
+  if echo "$out" | grep -q "refusing"; then echo "$id NOT-RUN (/repo had uncommitted changes)"; miss=1
+  elif echo "$out" | grep -q "patch does not apply"; then echo "$id DOES-NOT-APPLY"; miss=1
   elif echo "$out" | grep -q "^VIOLATION property=$p"; then echo "$id DETECTED"
   else echo "$id MISSED"; miss=1; fi
   rm -rf "/var/tmp/rb-$id"
